@@ -241,7 +241,7 @@ func (p *Prog) parseContractFile(rel, file, src string) []string {
 				cur.Uses = map[string]bool{}
 			}
 			for _, u := range splitNames(rest) {
-				if u != "sum_congruence" {
+				if u != "sum_congruence" && u != "inline_at_calls" {
 					fail("uses: unknown engine lemma " + u)
 					continue
 				}
@@ -869,6 +869,10 @@ func (e *Engine) evalBin(y *EBin, env *evalEnv) Val {
 			r = e.isNil(a)
 		case a.S == "nil":
 			r = e.isNil(b)
+		case a.G != nil && b.G != nil && a.G.name == b.G.name && a.GSt != nil && b.GSt != nil && (a.G.kind == "map" || a.G.kind == "item"):
+			// two states of one store: same keys and same values
+			dn, vn := a.G.name+"_d", a.G.name+"_v"
+			r = and(eq(e.heap(a.GSt, vn, e.heapSorts[vn]), e.heap(b.GSt, vn, e.heapSorts[vn])), eq(e.heap(a.GSt, dn, e.heapSorts[dn]), e.heap(b.GSt, dn, e.heapSorts[dn])))
 		default:
 			r = eq(a.S, b.S)
 		}
@@ -1156,6 +1160,33 @@ func (e *Engine) evalCall(y *ECall, env *evalEnv) Val {
 			p, ok2 := y.Args[1].(*EIdent)
 			if ok1 && ok2 {
 				hn := "callarg_" + mangle(f.Name) + "_" + mangle(p.Name)
+				if _, ok := e.callArgTypes[hn]; !ok {
+					// not executed yet (e.g. a loop invariant evaluated at the loop head): take the parameter type
+					// from the program if every layer function of that name agrees on it
+					var pt types.Type
+					okAll := true
+					for _, fn := range e.prog.Funcs {
+						if fn.Name() != f.Name {
+							continue
+						}
+						for _, prm := range fn.Params {
+							if prm.Name() == p.Name {
+								if pt == nil {
+									pt = prm.Type()
+								} else if !types.Identical(pt, prm.Type()) {
+									okAll = false
+								}
+							}
+						}
+					}
+					if pt != nil && okAll {
+						srt := e.vc.sortOf(pt)
+						if srt != "GoTuple" {
+							e.initHeap(hn, srt)
+							e.callArgTypes[hn] = pt
+						}
+					}
+				}
 				if t, ok := e.callArgTypes[hn]; ok {
 					return Val{S: e.heap(env.logState(), hn, e.heapSorts[hn]), T: t, Log: true}
 				}
